@@ -41,6 +41,17 @@ CHECKS = {
          "Trusts the message-based classification of panics; harness arithmetic is explicitly wrapping so overflow panics can only come from the crates under test.",
          "DESIGN.md §4 C20"),
 }
+
+CHECKS.update({
+ "C04": ("generated-value round-trip search: corpus tables + proptest recipes for 31 table kinds (strong check) and parse-first mutated tables (idempotence) vs dump->read->equality + re-dump byte equality",
+         "Exploration: every writable top-level table of every corpus font, ~160 k (quick) generated values over 31 table kinds / versions / formats with null and non-null offsets, and ~180 k field-sweep / havoc mutated tables parsed first; oracle is structural equality after dump_table + read (implied-length arrays on the written prefix) and byte equality of the re-dump. Sampling, no proof.",
+         "Trusts the Debug-tree comparator and its documented allowances (implied-length arrays; repacked GPOS/GSUB only counted); values that only corrupt bytes produce (inconsistent counts) are checked for idempotence only.",
+         "DESIGN.md §4 C04"),
+ "C05": ("exhaustive small DAG shapes over a size alphabet straddling 64 KiB + proptest random DAGs / big Gpos tables vs an independent byte walker (public FontWrite route and the mock-graph hook)",
+         "Exploration, partly exhaustive: all rooted DAG shapes with <= 4 (thorough: 5) nodes x size alphabet x link widths, random DAGs with sharing, 24-bit boundary graphs and Gpos tables that force splitting and extension promotion; every offset must land on a byte-for-byte copy of its target, layout must tile the output; panics on acyclic graphs are violations, PackingFailed is allowed.",
+         "Trusts the harness byte walker; hook H2 (pack_mock_graph) is additional, the public dump_table route needs no hook. Two listed findings (mixed-width and nested 32-bit targets) are tolerated only when their structural predicate holds.",
+         "DESIGN.md §4 C05"),
+})
 NOT_YET = {}  # id -> reason
 
 ALL = ["C%02d" % i for i in range(1, 21)]
